@@ -196,6 +196,8 @@ class Monitor:
         self.grad_stale = 0
         self.congrad_wrong = 0
         self.congrad_nounits = 0
+        self.congrad_negated = 0
+        self.new_style = drv.options['optimizer'] in NEW_STYLE
         self.sides = set()      # (con key, k, 'lower'|'upper') presented to the optimizer
         self.last_obj_x = None
         self.captured = None
@@ -247,9 +249,20 @@ class Monitor:
                 row = self.sr.jac_g(x, name)[int(idx)]
                 r_ = np.asarray(r, float).ravel()
                 tol = 1e-8 * (1 + np.max(np.abs(row)))
-                if r_.shape != row.shape or min(np.max(np.abs(r_ - row)), np.max(np.abs(r_ + row))) > tol:
+                # sign the optimizer needs: new-style constraints and equalities are given as values
+                # (Jacobian of the value); an old-style inequality is 'upper - g' when it is the second
+                # (dbl) entry or has no lower bound, else 'g - lower'
+                eq = self.cons_by_key[name]['d'].get('equals') is not None
+                if self.new_style or eq:
+                    sgn = 1.0
+                else:
+                    sgn = -1.0 if (dbl or self.sr.lo[name][int(idx)] <= -af.INF_BOUND) else 1.0
+                if r_.shape != row.shape or np.max(np.abs(r_ - sgn * row)) > tol:
                     alt = self.sr.jac_g_without_units(name)[int(idx)]
-                    if r_.shape == alt.shape and min(np.max(np.abs(r_ - alt)), np.max(np.abs(r_ + alt))) <= tol:
+                    if r_.shape == row.shape and np.max(np.abs(r_ + sgn * row)) <= tol and \
+                            np.max(np.abs(row)) > tol:
+                        self.congrad_negated += 1
+                    elif r_.shape == alt.shape and min(np.max(np.abs(r_ - alt)), np.max(np.abs(r_ + alt))) <= tol:
                         self.congrad_nounits += 1
                     else:
                         self.congrad_wrong += 1
@@ -298,6 +311,8 @@ class Monitor:
         """Mechanism label from the callback monitors (None = every value handed to scipy was right)."""
         if self.stale:
             return '%s:constraint-callback-returns-values-of-previous-point' % style
+        if self.congrad_negated:
+            return '%s:constraint-gradient-callback-has-opposite-sign' % style
         if self.congrad_nounits:
             return '%s:linear-constraint-gradient-ignores-declared-units' % style
         if self.wrong:
